@@ -50,6 +50,8 @@ class Polynomial:
         return self.args == other.args
 
     def __add__(self, other):
+        if isinstance(other, RationalPolynomial):
+            return NotImplemented
         if other == 0:
             return self
         if not isinstance(other, self.__class__):
@@ -83,6 +85,8 @@ class Polynomial:
         return self.__add__(other)
 
     def __mul__(self, other):
+        if isinstance(other, RationalPolynomial):
+            return NotImplemented
         if self == 0 or other == 0:
             return self.__class__([])
 
@@ -136,6 +140,8 @@ class Polynomial:
         return last
 
     def __truediv__(self, other):
+        if isinstance(other, RationalPolynomial):
+            return NotImplemented
         if isinstance(other, self.__class__):
             return RationalPolynomial(self, other)
         # Assume scalar
@@ -224,7 +230,9 @@ class RationalPolynomial:
         return self.__add__(other)
 
     def __mul__(self, other):
-        if not isinstance(other, self.__class__):
+        if isinstance(other, Polynomial):
+            other = self.__class__(other)
+        elif not isinstance(other, self.__class__):
             other = self.__class__([[other]])
 
         if self == 0: return self
@@ -262,6 +270,8 @@ class RationalPolynomial:
         return self.__class__(self.denom, self.numer)
 
     def __truediv__(self, other):
+        if isinstance(other, Polynomial):
+            other = self.__class__(other)
         if isinstance(other, self.__class__):
             return self * other.inv()
         return self.__class__(self.numer / other, self.denom)
